@@ -95,6 +95,14 @@ pub fn build(rng: &mut Rng, scale: usize, thorough: bool) -> Vec<Item> {
 		("fixed.json_ws_only", b" \n\t"),
 		("fixed.yaml_docs", b"---\na: 1\n---\n- 2\n...\n"),
 		("fixed.nul", b"\x00"),
+		// K11: the toml crate's private date-time key in a JSON object
+		("fixed.k11_json_toml_datetime_key", b"{\"d\":{\"$__toml_private_datetime\":\"1979-05-27T07:32:00Z\"},\"e\":1}\n"),
+		("fixed.k11_json_toml_datetime_key_bad", b"{\"d\":{\"$__toml_private_datetime\":\"yesterday\"}}"),
+		// a UTF-8 byte order mark in front of YAML text with multi-byte characters
+		("fixed.yaml_utf8_bom_2byte", b"\xef\xbb\xbfa: \xc3\xa9\xc3\xa9\n"),
+		("fixed.yaml_utf8_bom_4byte_flow", b"\xef\xbb\xbf[\"\xf0\x9f\xa7\x91\", \"\xf0\x9f\x92\xbb\"]\n"),
+		("fixed.yaml_utf8_bom_docs", b"\xef\xbb\xbf---\nk: \xe2\x82\xac\n---\n- \xc3\xbc\xc3\xbc\n- \xe2\x82\xac\n"),
+		("fixed.yaml_utf8_bom_ascii", b"\xef\xbb\xbfa: 1\n---\nb: 2\n"),
 	] {
 		push(&mut v, label, b.to_vec());
 	}
@@ -173,6 +181,29 @@ pub fn build(rng: &mut Rng, scale: usize, thorough: bool) -> Vec<Item> {
 		push(&mut v, "wide.json", j.into_bytes());
 		push(&mut v, "wide.yaml", y.into_bytes());
 	}
+	// A MessagePack map 16 whose pair count needs the upper half of the 16 bits
+	// (twice the count does not fit 16 bits), and a str 8 / bin 8 / str 16 whose
+	// length plus header does not fit its width.
+	for n in [32768usize, 40000] {
+		let mut m = vec![0xde, (n >> 8) as u8, n as u8];
+		for i in 0..n {
+			let k = [b'a' + (i % 26) as u8, b'a' + (i / 26 % 26) as u8, b'a' + (i / 676 % 26) as u8, b'a' + (i / 17576) as u8];
+			m.push(0xa4);
+			m.extend_from_slice(&k);
+			m.push((i % 100) as u8);
+		}
+		push(&mut v, "map16.msgpack", m);
+	}
+	for (marker, len) in [(0xd9u8, 254usize), (0xd9, 255), (0xc4, 255), (0xda, 65533), (0xda, 65535), (0xc5, 65534)] {
+		let mut m = vec![0x92, marker];
+		if marker == 0xda || marker == 0xc5 {
+			m.push((len >> 8) as u8);
+		}
+		m.push(len as u8);
+		m.extend(std::iter::repeat(b'x').take(len));
+		m.push(0x01);
+		push(&mut v, "lenwidth.msgpack", m);
+	}
 	// Large non-ASCII YAML / JSON (multi-byte characters across 8 KiB and
 	// 16 KiB read boundaries at every alignment).
 	for pad in 0..4usize {
@@ -199,6 +230,18 @@ pub fn collection_docs(rng: &mut Rng, n: usize, fmts: &[Fmt]) -> Vec<Val> {
 	for first_key in ["", "1", "true", "null", "1e3", "\"q\"", "é", "\u{700}", "\u{7ff}", "a b", "- a", "#", "[", "{", "---", "a: b", "=", "a.b"] {
 		v.push(Val::Map(vec![(Val::Str(first_key.to_string()), Val::Int(1))]));
 		v.push(Val::Seq(vec![Val::Str(first_key.to_string())]));
+	}
+	// Documents whose TOML (or JSON / YAML) text BEGINS like a YAML block
+	// mapping or sequence but is not YAML as a whole: a first line with `: ` or
+	// a leading `- `, followed by table headers, more entries, arrays of tables.
+	let s = |t: &str| Val::Str(t.to_string());
+	let m = |e: Vec<(&str, Val)>| Val::Map(e.into_iter().map(|(k, x)| (Val::Str(k.to_string()), x)).collect());
+	for first in [("a", s("x: y")), ("-", Val::Int(1)), ("k", s("- x: y")), ("a", s("b: c #")), ("-", s("x: y")), ("a", s("? b : c")), ("x", s("y: [")), ("a-b", s(": "))] {
+		let (k, x) = first;
+		v.push(m(vec![(k, x.clone()), ("t", m(vec![("k", Val::Int(1))]))]));
+		v.push(m(vec![(k, x.clone()), ("z", Val::Seq(vec![m(vec![("q", Val::Int(1))]), m(vec![("q", s("r: s"))])]))]));
+		v.push(m(vec![(k, x.clone()), ("b", Val::Int(2)), ("c", Val::Seq(vec![Val::Int(1), s("u: v")]))]));
+		v.push(m(vec![(k, x), ("t", m(vec![("u", m(vec![("w", s("p: q"))]))]))]));
 	}
 	for _ in 0..n {
 		v.push(gen_doc(rng, &o));
